@@ -196,6 +196,9 @@ static void put_env_opt(const char* name) {
 }
 static void noop_ev(uv_fs_event_t* h, const char* f, int e, int s) { (void) h; (void) f; (void) e; (void) s; }
 static void noop_poll(uv_fs_poll_t* h, int s, const uv_stat_t* a, const uv_stat_t* b) { (void) h; (void) s; (void) a; (void) b; }
+static int ev_fired, poll_fired;
+static void count_ev(uv_fs_event_t* h, const char* f, int e, int s) { (void) h; (void) f; (void) e; (void) s; ev_fired++; }
+static void count_poll(uv_fs_poll_t* h, int s, const uv_stat_t* a, const uv_stat_t* b) { (void) h; (void) s; (void) a; (void) b; poll_fired++; }
 static void noop_close(uv_handle_t* h) { (void) h; }
 static void noop_conn(uv_stream_t* s, int st) { (void) s; (void) st; }
 static int connected;
@@ -346,7 +349,27 @@ static void run_case(char* line) {
     char* a = NEXT(); char* p = NULL; int r;
     h_ev = calloc(1, sizeof(*h_ev));
     uv_fs_event_init(loop, h_ev);
-    if (a[0] == 'x') {
+    if (a[0] == 'e' || a[0] == 'E') {
+      /* e<hex>: a directory path as spelled (trailing slashes, dots), relative to the start directory;
+       * E<hex>: the same made absolute.  After start an event on the watched directory itself
+       * (chmod -> IN_ATTRIB without a name) is dispatched to the callback, then the sweep.
+       * The true value is the string handed to uv_fs_event_start, byte for byte. */
+      int abs = a[0] == 'E', spins; char* rel;
+      a[0] = 'x'; rel = unhex(a, &l);
+      if (make_along(rel) != 0 || fchdir(base_fd) != 0) { printf("SKIP mkdir-along errno=%d\n", errno); if (fchdir(base_fd)) {} free(rel); free(h_ev); return; }
+      if (abs) { p = malloc(strlen(base_path) + l + 2); sprintf(p, "%s/%s", base_path, rel); free(rel); l = strlen(p); }
+      else p = rel;
+      ev_fired = 0;
+      r = uv_fs_event_start(h_ev, count_ev, p, 0);
+      if (r != 0) { printf("SKIP fs_event_start=%d\n", r); uv_close((uv_handle_t*) h_ev, noop_close); uv_run(loop, UV_RUN_DEFAULT); free(h_ev); free(p); return; }
+      for (spins = 0; spins < 200 && ev_fired == 0; spins++) {
+        if (chmod(p, (spins & 1) ? 0700 : 0750) != 0) break;
+        uv_run(loop, UV_RUN_NOWAIT);
+        if (ev_fired == 0 && spins > 3) usleep(2000);
+      }
+      if (ev_fired == 0) { printf("SKIP no-event-dispatched\n"); uv_close((uv_handle_t*) h_ev, noop_close); uv_run(loop, UV_RUN_DEFAULT); free(h_ev); free(p); return; }
+      printf("fsevent 1 "); putx(p, l);
+    } else if (a[0] == 'x') {
       int fd;
       p = unhex(a, &l);
       fd = open(p, O_CREAT | O_RDWR, 0600); if (fd >= 0) close(fd);
@@ -362,7 +385,24 @@ static void run_case(char* line) {
     char* a = NEXT(); char* p = NULL; int r;
     h_poll = calloc(1, sizeof(*h_poll));
     uv_fs_poll_init(loop, h_poll);
-    if (a[0] == 'x') {
+    if (a[0] == 'e' || a[0] == 'E') {
+      /* as for fsevent: a directory path as spelled; the sweep happens after a poll callback
+       * (the directory's mode is changed between two polls, interval 5 ms) */
+      int abs = a[0] == 'E', spins; char* rel;
+      a[0] = 'x'; rel = unhex(a, &l);
+      if (make_along(rel) != 0 || fchdir(base_fd) != 0) { printf("SKIP mkdir-along errno=%d\n", errno); if (fchdir(base_fd)) {} free(rel); free(h_poll); return; }
+      if (abs) { p = malloc(strlen(base_path) + l + 2); sprintf(p, "%s/%s", base_path, rel); free(rel); l = strlen(p); }
+      else p = rel;
+      poll_fired = 0;
+      r = uv_fs_poll_start(h_poll, count_poll, p, 5);
+      if (r != 0) { printf("SKIP fs_poll_start=%d\n", r); uv_close((uv_handle_t*) h_poll, noop_close); uv_run(loop, UV_RUN_DEFAULT); free(h_poll); free(p); return; }
+      for (spins = 0; spins < 600 && poll_fired == 0; spins++) {
+        if (chmod(p, (spins & 1) ? 0700 : 0750) != 0) break;
+        uv_run(loop, UV_RUN_ONCE);
+      }
+      if (poll_fired == 0) { printf("SKIP no-poll-callback\n"); uv_close((uv_handle_t*) h_poll, noop_close); uv_run(loop, UV_RUN_DEFAULT); free(h_poll); free(p); return; }
+      printf("fspoll 1 "); putx(p, l);
+    } else if (a[0] == 'x') {
       p = unhex(a, &l);
       r = uv_fs_poll_start(h_poll, noop_poll, p, 3600000);
       if (r != 0) { printf("SKIP fs_poll_start=%d\n", r); uv_close((uv_handle_t*) h_poll, noop_close); uv_run(loop, UV_RUN_DEFAULT); free(h_poll); free(p); return; }
